@@ -70,6 +70,8 @@ pub struct Source {
 }
 
 const MAX_CONSECUTIVE_FAULTS: u32 = 8;
+pub const EOF_IGNORED_BOUND: u64 = 1000;
+pub const EOF_IGNORED_MARK: &str = "VERIF-EOF-IGNORED";
 
 impl Source {
     pub fn new(data: Vec<u8>, script: Script) -> Source {
@@ -103,6 +105,13 @@ impl Source {
         }
         if self.pos >= self.data.len() {
             self.log.eof_reads += 1;
+            // a logical progress bound: a correct reader asks once or twice more after it was told that the
+            // stream has ended; one that was told EOF_IGNORED_BOUND times and still asks will never stop.
+            // The source regains control by unwinding (the monitors catch it and report the clause
+            // `end_of_stream_ignored`); no clock is involved.
+            if self.log.eof_reads > EOF_IGNORED_BOUND {
+                panic!("{}: the source answered end-of-stream {} times and is still being read", EOF_IGNORED_MARK, self.log.eof_reads);
+            }
             return Some(0);
         }
         match self.next_step() {
